@@ -92,7 +92,7 @@ Definition nv_steps : list (nat * list cmd) :=
     (0, [CSetData [([a_], false)] false]);
     (0, [CInsertOrdered [[CLit a_]] [BEnd; BEnd; BName (NI 0)]]);
     (0, [CReorder [([CLit a_; CLit (NI 0)], BEnd)]; CGetData [CAny; CLit a_]]);
-    (0, [CRemove [CLit a_; CLit (NI 1)]]) ].
+    (0, [CRemove [[CLit a_; CLit (NI 1)]]]) ].
 
 Example nv_replay_eq :
   let st := run cfg_fixed 2 nv_steps in
